@@ -115,10 +115,12 @@ def make_state(rng):
                      'hist_tail': hist[-4:], 'exit': exitflag}
 
 
-def near(rng, v):
-    """values straddling v"""
+def near(rng, v, exact=False):
+    """values straddling v; exact: also v itself - the threshold is met with equality (only where mystic and the oracle evaluate the very
+    same floating-point expression, so that equality is reproducible)"""
     v = abs(v)
-    return v * rng.choice([0.5, 0.9, 0.999, 1.001, 1.1, 2.0]) if v else rng.choice([0.0, 1e-12, 1e-6])
+    f = [0.5, 0.9, 0.999, 1.001, 1.1, 2.0] + ([1.0, 1.0] if exact else [])
+    return v * rng.choice(f) if v else rng.choice([0.0, 1e-12, 1e-6])
 
 
 def gen_primitive(rng, view):
@@ -132,9 +134,9 @@ def gen_primitive(rng, view):
         if r < 0.24: return 0
         if r < 0.6 and lg: return max(0, lg + rng.choice([-2, -1, 0, 1, 2]))
         return rng.randint(1, max(2, lg + 3))
-    def tol_for(d):
+    def tol_for(d, exact=False):
         if d is None or not math.isfinite(d): return rng.choice([0.0, 1e-6, 1.0])
-        return near(rng, d) if rng.random() < 0.7 else rng.choice([0.0, 1e-8, 1e-4, 1e-2, 10.0])
+        return near(rng, d, exact) if rng.random() < 0.7 else rng.choice([0.0, 1e-8, 1e-4, 1e-2, 10.0])
     last = h[-1] if lg else 0.0
     g = window()
     gi = 0 if g is None else int(g)
@@ -142,9 +144,9 @@ def gen_primitive(rng, view):
     dd = (first - last) if (math.isfinite(first) and math.isfinite(last)) else None
     if name == 'VTR':
         target = rng.choice([0.0, last + rng.choice([-1, 1]) * rng.choice([1e-3, 0.5]) if math.isfinite(last) else 1.0])
-        return name, {'tolerance': tol_for(abs(last - target) if math.isfinite(last) else None), 'target': target}
+        return name, {'tolerance': tol_for(abs(last - target) if math.isfinite(last) else None, True), 'target': target}
     if name == 'ChangeOverGeneration':
-        return name, {'tolerance': tol_for(dd), 'generations': g}
+        return name, {'tolerance': tol_for(dd, True), 'generations': g}
     if name == 'NormalizedChangeOverGeneration':
         den = abs(first) + abs(last)
         d = (2 * dd / den) if (dd is not None and den and math.isfinite(den)) else None
@@ -162,8 +164,8 @@ def gen_primitive(rng, view):
         return name, {'fval': fval, 'tolerance': tol_for(d), 'generations': g}
     if name == 'VTRChangeOverGeneration':
         target = rng.choice([0.0, -1.0, last if math.isfinite(last) else 0.0])
-        return name, {'ftol': tol_for(abs(last - target) if math.isfinite(last) else None) if rng.random() < 0.5 else 0.0,
-                      'gtol': tol_for(dd), 'generations': g, 'target': target}
+        return name, {'ftol': tol_for(abs(last - target) if math.isfinite(last) else None, True) if rng.random() < 0.5 else 0.0,
+                      'gtol': tol_for(dd, True), 'generations': g, 'target': target}
     if name == 'PopulationSpread':
         return name, {'tolerance': tol_for(ref.population_spread_value(view))}
     if name == 'GradientNormTolerance':
@@ -180,18 +182,39 @@ def gen_primitive(rng, view):
     raise KeyError(name)
 
 
+# documented default arguments: a primitive built without an argument must behave as if the documented default had been passed
+DEFAULTS = {'VTR': {'tolerance': 0.005, 'target': 0.0}, 'ChangeOverGeneration': {'tolerance': 1e-6, 'generations': 30},
+            'NormalizedChangeOverGeneration': {'tolerance': 1e-4, 'generations': 10}, 'CandidateRelativeTolerance': {'xtol': 1e-4, 'ftol': 1e-4},
+            'SolutionImprovement': {'tolerance': 1e-5}, 'NormalizedCostTarget': {'fval': None, 'tolerance': 1e-6, 'generations': 30},
+            'VTRChangeOverGeneration': {'ftol': 0.005, 'gtol': 1e-6, 'generations': 30, 'target': 0.0}, 'PopulationSpread': {'tolerance': 1e-6},
+            'GradientNormTolerance': {'tolerance': 1e-5, 'norm': float('inf')}, 'EvaluationLimits': {'generations': None, 'evaluations': None}}
+
+
+def with_defaults(rng, name, kw):
+    """sometimes leave arguments to their documented defaults: the spec (what the oracle sees) carries the default value, the constructor
+    call (spec[2] = names omitted) does not pass it"""
+    d = DEFAULTS.get(name)
+    if not d or rng.random() > 0.25:
+        return [name, kw]
+    omit = [k for k in kw if k in d and rng.random() < 0.6]
+    kw = dict(kw)
+    for k in omit: kw[k] = d[k]
+    return [name, kw, omit]
+
+
 def build(spec):
     import mystic.termination as mt
     if spec[0] in ('And', 'Or', 'When'):
         kids = [build(k) for k in spec[1]]
         return getattr(mt, spec[0])(*kids)
-    return getattr(mt, spec[0])(**spec[1])
+    omit = spec[2] if len(spec) > 2 else ()
+    return getattr(mt, spec[0])(**{k: v for k, v in spec[1].items() if k not in omit})
 
 
 def gen_tree(rng, view, depth):
     if depth <= 0 or rng.random() < 0.35:
         n, kw = gen_primitive(rng, view)
-        return [n, kw]
+        return with_defaults(rng, n, kw)
     op = rng.choice(['And', 'Or', 'When'])
     if op == 'When':
         return [op, [gen_tree(rng, view, depth - 1)]]
@@ -250,6 +273,7 @@ def check_tree(obs, s, view, spec, tag):
     clause = 'primitive' if spec[0] not in ('And', 'Or', 'When') else 'compound'
     obs.check(bool(got) == want, clause + ':verdict', tree=spec, state=obs.desc.get('state'),
               observed=bool(got), expected=want, tag=tag)
+    obs.check(isinstance(got, (bool, np.bool_)), clause + ':without info the answer is a plain truth value', tree=spec, observed=repr(got)[:80])
     obs.check(bool(gi) == want, clause + ':info-truthiness', tree=spec, observed=gi, expected=want)
     if winfo is not None and isinstance(gi, str):
         obs.check(info_set(gi) == winfo, clause + ':info names exactly the satisfied primitives',
@@ -275,7 +299,7 @@ def check_tree(obs, s, view, spec, tag):
 
 def flips(rng, spec, view):
     """near-threshold: does the reference verdict flip under a small perturbation?"""
-    name, kw = spec
+    name, kw = spec[0], spec[1]
     base = ref.evaluate(name, kw, view)
     if base is None:
         return False
@@ -316,7 +340,8 @@ def run_case(cls, idx, rng, obs):
     obs.desc['state'] = sdesc
     if cls == 'primitive':
         n, kw = gen_primitive(rng, view)
-        spec = [n, kw]
+        spec = with_defaults(rng, n, kw)
+        if len(spec) > 2: obs.event('built_with_default_arguments')
         obs.desc['tree'] = spec
         w = check_tree(obs, s, view, spec, 'primitive')
         if w is not None and flips(rng, spec, view):
